@@ -20,7 +20,7 @@ rm -f demo.py; git checkout -q -- .
 cd /verif
 git -C /repo apply $OUT/patch.diff || { echo "cannot apply to /repo"; exit 2; }
 echo "== check on seeded /repo"
-./check $ID "$@" > /tmp/wt/$N.check.log 2>&1; echo "check exit $?"
+SYMX_EVIDENCE_DIR=/tmp/wt/evidence-seeded ./check $ID "$@" > /tmp/wt/$N.check.log 2>&1; echo "check exit $?"
 git -C /repo checkout -- .
 grep -E "^VIOLATION|^INCONCLUSIVE|^KNOWN|holds within" /tmp/wt/$N.check.log | cut -c1-400 | head -8
 git -C /repo status --short | head -3
